@@ -574,9 +574,7 @@ Proof.
       unfold same_num; simp_s; repeat split; reflexivity. }
     destruct (o_closed o && qe && (s_buf s =? 0)); [destruct vs; [exact X0|exact I]|].
     apply add_outs_ok.
-    destruct (o_pending_open o).
-    + cbn [bind]. apply add_outs_ok. apply reclaim_all_ok; [lia|exact X0].
-    + apply clear_then_reclaim_ok; [lia|exact X0].
+    apply clear_then_reclaim_ok; [lia|exact X0].
   - (* LHandleError *) apply outcome_ok_result. apply clear_then_reclaim_ok; assumption.
   - (* LImplicitReset *)
     apply outcome_ok_result.
